@@ -8,7 +8,10 @@ from rules.common import RuleProxy
 
 # property -> [(module, rule function, why it is necessary for this property)]
 CROSS = {
-    "C01": [("C04", "R1e_mutated_accounts_are_mut", "an update that is not written back (missing `mut`) never happened: fees are collected twice, liquidity is never recorded"),
+    "C01": [("C05", "R4_in_range", "pool liquidity is the sum over the positions whose range contains the current tick, bounds as [lower, upper)"),
+            ("C05", "R3_tick_polarity", "a tick whose gross liquidity returned to zero but stays initialised keeps net liquidity the pool no longer holds"),
+            ("C10", "R6_array_grid", "a start index off the tick-array grid addresses slots whose liquidity is counted under another index"),
+            ("C04", "R1e_mutated_accounts_are_mut", "an update that is not written back (missing `mut`) never happened: fees are collected twice, liquidity is never recorded"),
             ("C10", "R5_loop_cursor", "a tick index moved without a crossing counts positions the pool liquidity does not contain"),
             ("C10", "R4_sequence", "a tick skipped at an array boundary is liquidity that is claimed but was never added"),
             ("C18", "R7_range_validator", "a zero-width or inverted range mints liquidity for nothing"),
@@ -20,7 +23,8 @@ CROSS = {
             ("xfer", "R_cpi_builders", "deposits must arrive in the vault and only pool-signed outflows may leave it, for the amount computed"),
             ("C03", "R7_amount_and_limit_wiring", "what a v2 swap pays out is what the loop computed, not what was asked for"),
             ("lostupdate", "R_lost_updates", "an update made to a copy of the state and dropped never happened")],
-    "C03": [("C16", "R4_helpers", "the limits are compared with amounts net of the Token-2022 transfer fee, which is rounded up"),
+    "C03": [("C06", "R3_booking_side", "the amounts compared with the limits are the amounts the swap update stored, on the side they were paid"),
+            ("C16", "R4_helpers", "the limits are compared with amounts net of the Token-2022 transfer fee, which is rounded up"),
             ("C06", "R4_swap_transfers", "what is compared with the limit must be what is transferred"),
             ("C16", "R5_tlv_reader", "the fee schedule of the current epoch decides what the trader pays and receives")],
     "C05": [("C06", "R3_booking_side", "the tick stored with the pool is the tick the loop computed the liquidity for"),
@@ -39,7 +43,8 @@ CROSS = {
             ("C13", "R4c_initialise_only_blank", "a fixed array overwritten by a dynamic header loses every net / gross it holds"),
             ("C13", "R4b_resize_moves_no_bytes", "a resize that writes tick bytes changes net / gross of a tick nobody updated"),
             ("C15", "R4_loaders_and_unchecked", "a tick array of another pool takes this pool's net / gross")],
-    "C07": [("C01", "R2_pay_reset", "collecting fees resets what is owed and nothing else (the checkpoint stays)"),
+    "C07": [("C12", "R3_accessors", "the Pinocchio position update writes every growth checkpoint it was handed, unconditionally"),
+            ("C01", "R2_pay_reset", "collecting fees resets what is owed and nothing else (the checkpoint stays)"),
             ("C15", "R3_back_references", "a position settled against another pool's growth is credited fees its pool never collected"),
             ("C10", "R5_loop_cursor", "a cursor moved without a crossing leaves fee_growth_outside flipped"),
             ("C06", "R3_booking_side", "fee growth booked on the wrong token is credited in the wrong token"),
@@ -68,7 +73,8 @@ CROSS = {
             ("lostupdate", "R_lost_updates", "an update made to a copy of the state and dropped never happened"),
             ("pair", "manager::liquidity_manager::calculate_fee_and_reward_growths", "an out-of-range position's refresh accrues the pool's rewards like any other"),
             ("pair", "manager::position_manager::next_position_modify_liquidity_update", "owed rewards are carried, never reset by a settlement")],
-    "C12": [("C13", "R5_shared_checks", "the Pinocchio lookup must serve exactly the ticks the Anchor one serves"),
+    "C12": [("C18", "R1_range_fields", "the Pinocchio range reset zeroes the same checkpoints the Anchor one does"),
+            ("C13", "R5_shared_checks", "the Pinocchio lookup must serve exactly the ticks the Anchor one serves"),
             ("C04", "R2_authority_helpers", "both packagings demand delegated_amount == 1 of a delegate")],
     "C13": [("C12", "R3_accessors", "a de-initialised fixed slot must be cleared as a dynamic one is"),
             ("pair", "state::tick::Tick::check_is_out_of_bounds", "both array implementations accept the same ticks, the boundary ticks included")],
